@@ -41,6 +41,18 @@ T = {
                detected='yes (first run)', by='O1.sections_and_rewrite[degree d]/write.cell_array_records_eq_cells_declared'),
  'C20-2': dict(breaks='value round trip: 2x2 tensors flattened into the first 4 of 9 columns', needs='tensor field supplied as 2x2 matrices',
                detected='exit 3 at first (shape shim) and value placement was outside the claim; caught after strengthening', by='new O3.values_land_in_place[degree d]/{point,cell}_tensor_values_in_place'),
+ 'C07-1': dict(breaks='IFT derivative through multi-step histories: the parameters are installed in the objective only after the adjoint solve', needs='>= 2 solves with different parameters before the backward pass and a parameter-dependent Hessian',
+               detected='yes (first run)', by='O1.reverse_rule_ift[nonlinear_solve_with_state_b]/state[...].cotangent_is_ift[slot_k]'),
+ 'C07-2': dict(breaks='helper VJP of the internal-variable update w.r.t. displacements silently evaluated at dt=0', needs='rate-dependent material and dt != 0',
+               detected='MISSED at first (helper VJPs were declared outside as JAX-vs-JAX); strengthening in progress: translation-validation obligation O4.helper_vjps', by='pending'),
+ 'C09-1': dict(breaks='commit consistency / yield consistency at finite deformation: plastic distortion composed on the wrong side', needs='finite-deformation kinematics and two non-commuting plastic steps',
+               detected='MISSED at first (finite-deformation kinematics outside the claim); strengthening in progress: structural obligations on the multiplicative update', by='pending'),
+ 'C09-2': dict(breaks='variational/yield consistency of the Seth-Hill option: update uses the linear strain, energy the Seth-Hill strain', needs="'kinematics': 'seth hill' and a finite strain or rotation",
+               detected='MISSED at first (Seth-Hill kinematics outside the claim); strengthening in progress: update and energy must use the same strain function', by='pending'),
+ 'C19-1': dict(breaks='exact linear predictor under scaling: warm start evaluated at the unscaled point', needs='ScaledObjective with non-identity scaling, warm start, non-quadratic energy',
+               detected='yes (first run)', by='O2.driver_order[nonlinear_equation_solve]/driver[warm=True,*].warm_start_from_scaled_start'),
+ 'C19-2': dict(breaks='objective carries the new parameters: TrustRegionSPG.solve only assigns p inside `if updatePrecond`', needs='SPG driver with updatePrecond=False and changing parameters',
+               detected='yes (first run)', by='O2.driver_order[spg_solve]/driver[*,precond=False].new_parameters_installed_before_solve, .objective_carries_new_parameters_after'),
 }
 for name, t in T.items():
     d = os.path.join(HERE, 'seeded', name)
